@@ -14,7 +14,7 @@ class C03(Check):
 
     def profile(self, rng, tier):
         big = tier == "thorough"
-        kinds = list(gen.TASK_CONSTRAINT_KINDS)
+        kinds = list(gen.TASK_CONSTRAINT_KINDS) + ["GroupPrecedence"]
         if rng.random() < 0.5:
             kinds = rng.sample(kinds, 3)
         return gen.profile(
